@@ -93,6 +93,154 @@ example : (Img.mk 0 5 2 none none []).export = .ok [] ∧ (Img.mk 0 5 2 none non
 /-! ## `get_image_by_absolute_address` (current behaviour: the end address is accepted) -/
 
 /-- a hit among the children: the first child (in list order) that accepts the address -/
+theorem getByAddrLaxChildren_some (l : List Img) (addr idx : Nat) (r : List Nat × Nat × Img)
+    (h : getByAddrLaxChildren l addr idx = some r) :
+    ∃ k c path off, l[k]? = some c ∧ c.getByAddrLax addr = .ok (path, off, r.2.2) ∧
+      r.1 = (idx + k) :: path ∧ r.2.1 = c.offset + off ∧
+      ∀ j c', j < k → l[j]? = some c' → ∃ e, c'.getByAddrLax addr = .error e := by
+  induction l generalizing idx with
+  | nil => simp [getByAddrLaxChildren] at h
+  | cons c cs ih =>
+    rw [getByAddrLaxChildren] at h
+    cases hc : c.getByAddrLax addr with
+    | ok x =>
+      obtain ⟨path, off, d⟩ := x
+      rw [hc] at h; simp only [] at h
+      cases h
+      exact ⟨0, c, path, off, by simp, hc, by simp, rfl, by intro j c' hj; omega⟩
+    | error e =>
+      rw [hc] at h; simp only [] at h
+      obtain ⟨k, c2, path, off, h1, h2, h3, h4, h5⟩ := ih (idx + 1) h
+      refine ⟨k + 1, c2, path, off, by simpa using h1, h2, by rw [h3]; congr 1; omega, h4, ?_⟩
+      intro j c' hj hj'
+      cases j with
+      | zero =>
+        have : c = c' := by simpa using hj'
+        subst this; exact ⟨e, hc⟩
+      | succ j => exact h5 j c' (by omega) (by simpa using hj')
+
+theorem getByAddrLaxChildren_none (l : List Img) (addr idx : Nat) :
+    getByAddrLaxChildren l addr idx = none ↔ ∀ c ∈ l, ∃ e, c.getByAddrLax addr = .error e := by
+  induction l generalizing idx with
+  | nil => simp [getByAddrLaxChildren]
+  | cons c cs ih =>
+    rw [getByAddrLaxChildren]
+    cases hc : c.getByAddrLax addr with
+    | ok x =>
+      obtain ⟨path, off, d⟩ := x
+      simp only []
+      constructor
+      · intro h; cases h
+      · intro h
+        obtain ⟨e, he⟩ := h c (by simp)
+        rw [hc] at he; cases he
+    | error e =>
+      simp only []
+      rw [ih]
+      constructor
+      · intro h c' hc'
+        rcases List.mem_cons.1 hc' with rfl | hc'
+        · exact ⟨e, hc⟩
+        · exact h c' hc'
+      · intro h c' hc'; exact h c' (List.mem_cons_of_mem _ hc')
+
+/-- soundness of the current search: the result is a descendant reached by the returned path, at the returned
+    offset, and the address lies in its INCLUSIVE range `[start, start + len]`.
+    Full-strength statement (what the docstring promises, "the image that contains the address"):
+      `addr < i.offset + o + d.len`
+    does NOT hold for the current code (`>` instead of `>=`), see `getByAddrLax_end_accepted` below; it holds under
+    the extra hypothesis that the address is not the end address of the found image (`getByAddrLax_contains_partial`). -/
+theorem getByAddrLax_sound (i : Img) : ∀ (addr : Nat) (path : List Nat) (o : Nat) (d : Img),
+    i.getByAddrLax addr = .ok (path, o, d) →
+    SubAt i o d ∧ atPath path i = some d ∧ pathOffset path i = o ∧
+      i.offset + o ≤ addr ∧ addr ≤ i.offset + o + d.len := by
+  induction i using Img.induct' with
+  | h s o a b p ch ih =>
+    intro addr path off d h
+    rw [Img.getByAddrLax] at h
+    by_cases hlt : addr < o
+    · rw [if_pos hlt] at h; cases h
+    · rw [if_neg hlt] at h
+      cases hch : getByAddrLaxChildren ch (addr - o) 0 with
+      | some r =>
+        rw [hch] at h; simp only [] at h
+        cases h
+        obtain ⟨k, c, path', off', h1, h2, h3, h4, _⟩ := getByAddrLaxChildren_some _ _ _ _ hch
+        simp only [] at h2 h3 h4
+        subst h3 h4
+        have hmem := List.mem_of_getElem? h1
+        obtain ⟨g1, g2, g3, g4, g5⟩ := ih c hmem _ _ _ _ h2
+        refine ⟨.step _ c d off' hmem g1, ?_, ?_, ?_, ?_⟩
+        · simp [atPath, Img.children, h1, g2]
+        · simp [pathOffset, Img.children, h1, g3]
+        · show o + (c.offset + off') ≤ addr; omega
+        · show addr ≤ o + (c.offset + off') + d.len; omega
+      | none =>
+        rw [hch] at h; simp only [] at h
+        by_cases hgt : addr > o + (Img.mk s o a b p ch).len
+        · rw [if_pos hgt] at h; cases h
+        · rw [if_neg hgt] at h
+          cases h
+          refine ⟨.self _, rfl, rfl, ?_, ?_⟩
+          · simp only [Img.offset]; omega
+          · simp only [Img.offset]; omega
+
+/-- PARTIAL (hypothesis `hne`: the address is not the end address of the found image): the found image contains
+    the address. -/
+theorem getByAddrLax_contains_partial (i : Img) (addr : Nat) (path : List Nat) (o : Nat) (d : Img)
+    (h : i.getByAddrLax addr = .ok (path, o, d)) (hne : addr ≠ i.offset + o + d.len) :
+    i.offset + o ≤ addr ∧ addr < i.offset + o + d.len := by
+  obtain ⟨_, _, _, h1, h2⟩ := getByAddrLax_sound i addr path o d h
+  omega
+
+/-- completeness: the search fails only for an address outside the inclusive range of the root (and only with
+    `SPSDKValueError`) -/
+theorem getByAddrLax_error (i : Img) (addr : Nat) (e : PyErr) (h : i.getByAddrLax addr = .error e) :
+    e = .spsdk ∧ (addr < i.offset ∨ i.offset + i.len < addr) := by
+  cases i with
+  | mk s o a b p ch =>
+    rw [Img.getByAddrLax] at h
+    by_cases hlt : addr < o
+    · rw [if_pos hlt] at h; cases h
+      exact ⟨rfl, Or.inl hlt⟩
+    · rw [if_neg hlt] at h
+      cases hch : getByAddrLaxChildren ch (addr - o) 0 with
+      | some r => rw [hch] at h; cases h
+      | none =>
+        rw [hch] at h; simp only [] at h
+        by_cases hgt : addr > o + (Img.mk s o a b p ch).len
+        · rw [if_pos hgt] at h; cases h
+          exact ⟨rfl, Or.inr hgt⟩
+        · rw [if_neg hgt] at h; cases h
+
+/-- … and every address inside the inclusive range of the root is answered -/
+theorem getByAddrLax_ok_of_range (i : Img) (addr : Nat) (h1 : i.offset ≤ addr) (h2 : addr ≤ i.offset + i.len) :
+    ∃ r, i.getByAddrLax addr = .ok r := by
+  cases h : i.getByAddrLax addr with
+  | ok r => exact ⟨r, rfl⟩
+  | error e => have := (getByAddrLax_error i addr e h).2; omega
+
+/-- the defect, inside the model: an address one past the end of an image is accepted.  Here address 4 is the first
+    byte of the second child (offset 4), yet the first child (bytes 0..3) is returned; and address 8, one past the
+    end of the root, is answered at all. -/
+theorem getByAddrLax_end_accepted :
+    let r : Img := .mk 8 0 1 none none [.mk 4 0 1 none none [], .mk 4 4 1 none none []]
+    (r.getByAddrLax 4).map (fun x => (x.1, x.2.1)) = .ok ([0], 0) ∧
+    (r.getByAddr 4).map (fun x => (x.1, x.2.1)) = .ok ([1], 4) ∧
+    (r.getByAddrLax 8).map (fun x => (x.1, x.2.1)) = .ok ([1], 4) ∧
+    (r.getByAddr 8).map (fun x => (x.1, x.2.1)) = .error .spsdk := by decide
+
+/-- hypotheses of `getByAddrLax_sound` / `getByAddrLax_contains_partial` are satisfiable (a grandchild is found) -/
+example :
+    let i : Img := .mk 0 2 1 none none [.mk 0 4 1 none none [.mk 0 1 1 (some [7, 8]) none []]]
+    (i.getByAddrLax 8).map (fun x => (x.1, x.2.1, x.2.2.len)) = .ok ([0, 0], 5, 2) ∧ 8 ≠ i.offset + 5 + 2 := by
+  decide
+/-- hypothesis of `getByAddrLax_error` is satisfiable -/
+example : ((Img.mk 4 2 1 none none []).getByAddrLax 7).map (fun x => x.1) = .error .spsdk ∧
+    ((Img.mk 4 2 1 none none []).getByAddrLax 1).map (fun x => x.1) = .error .spsdk := by decide
+
+/-! ## the current search against the strict one ("the image that contains the address") -/
+
 theorem getByAddrChildren_some (l : List Img) (addr idx : Nat) (r : List Nat × Nat × Img)
     (h : getByAddrChildren l addr idx = some r) :
     ∃ k c path off, l[k]? = some c ∧ c.getByAddr addr = .ok (path, off, r.2.2) ∧
@@ -144,162 +292,14 @@ theorem getByAddrChildren_none (l : List Img) (addr idx : Nat) :
         · exact h c' hc'
       · intro h c' hc'; exact h c' (List.mem_cons_of_mem _ hc')
 
-/-- soundness of the current search: the result is a descendant reached by the returned path, at the returned
-    offset, and the address lies in its INCLUSIVE range `[start, start + len]`.
-    Full-strength statement (what the docstring promises, "the image that contains the address"):
-      `addr < i.offset + o + d.len`
-    does NOT hold for the current code (`>` instead of `>=`), see `getByAddr_end_accepted` below; it holds under
-    the extra hypothesis that the address is not the end address of the found image (`getByAddr_contains_partial`). -/
-theorem getByAddr_sound (i : Img) : ∀ (addr : Nat) (path : List Nat) (o : Nat) (d : Img),
-    i.getByAddr addr = .ok (path, o, d) →
-    SubAt i o d ∧ atPath path i = some d ∧ pathOffset path i = o ∧
-      i.offset + o ≤ addr ∧ addr ≤ i.offset + o + d.len := by
-  induction i using Img.induct' with
-  | h s o a b p ch ih =>
-    intro addr path off d h
-    rw [Img.getByAddr] at h
-    by_cases hlt : addr < o
-    · rw [if_pos hlt] at h; cases h
-    · rw [if_neg hlt] at h
-      cases hch : getByAddrChildren ch (addr - o) 0 with
-      | some r =>
-        rw [hch] at h; simp only [] at h
-        cases h
-        obtain ⟨k, c, path', off', h1, h2, h3, h4, _⟩ := getByAddrChildren_some _ _ _ _ hch
-        simp only [] at h2 h3 h4
-        subst h3 h4
-        have hmem := List.mem_of_getElem? h1
-        obtain ⟨g1, g2, g3, g4, g5⟩ := ih c hmem _ _ _ _ h2
-        refine ⟨.step _ c d off' hmem g1, ?_, ?_, ?_, ?_⟩
-        · simp [atPath, Img.children, h1, g2]
-        · simp [pathOffset, Img.children, h1, g3]
-        · show o + (c.offset + off') ≤ addr; omega
-        · show addr ≤ o + (c.offset + off') + d.len; omega
-      | none =>
-        rw [hch] at h; simp only [] at h
-        by_cases hgt : addr > o + (Img.mk s o a b p ch).len
-        · rw [if_pos hgt] at h; cases h
-        · rw [if_neg hgt] at h
-          cases h
-          refine ⟨.self _, rfl, rfl, ?_, ?_⟩
-          · simp only [Img.offset]; omega
-          · simp only [Img.offset]; omega
-
-/-- PARTIAL (hypothesis `hne`: the address is not the end address of the found image): the found image contains
-    the address. -/
-theorem getByAddr_contains_partial (i : Img) (addr : Nat) (path : List Nat) (o : Nat) (d : Img)
-    (h : i.getByAddr addr = .ok (path, o, d)) (hne : addr ≠ i.offset + o + d.len) :
-    i.offset + o ≤ addr ∧ addr < i.offset + o + d.len := by
-  obtain ⟨_, _, _, h1, h2⟩ := getByAddr_sound i addr path o d h
-  omega
-
-/-- completeness: the search fails only for an address outside the inclusive range of the root (and only with
-    `SPSDKValueError`) -/
-theorem getByAddr_error (i : Img) (addr : Nat) (e : PyErr) (h : i.getByAddr addr = .error e) :
-    e = .spsdk ∧ (addr < i.offset ∨ i.offset + i.len < addr) := by
-  cases i with
-  | mk s o a b p ch =>
-    rw [Img.getByAddr] at h
-    by_cases hlt : addr < o
-    · rw [if_pos hlt] at h; cases h
-      exact ⟨rfl, Or.inl hlt⟩
-    · rw [if_neg hlt] at h
-      cases hch : getByAddrChildren ch (addr - o) 0 with
-      | some r => rw [hch] at h; cases h
-      | none =>
-        rw [hch] at h; simp only [] at h
-        by_cases hgt : addr > o + (Img.mk s o a b p ch).len
-        · rw [if_pos hgt] at h; cases h
-          exact ⟨rfl, Or.inr hgt⟩
-        · rw [if_neg hgt] at h; cases h
-
-/-- … and every address inside the inclusive range of the root is answered -/
-theorem getByAddr_ok_of_range (i : Img) (addr : Nat) (h1 : i.offset ≤ addr) (h2 : addr ≤ i.offset + i.len) :
-    ∃ r, i.getByAddr addr = .ok r := by
-  cases h : i.getByAddr addr with
-  | ok r => exact ⟨r, rfl⟩
-  | error e => have := (getByAddr_error i addr e h).2; omega
-
-/-- the defect, inside the model: an address one past the end of an image is accepted.  Here address 4 is the first
-    byte of the second child (offset 4), yet the first child (bytes 0..3) is returned; and address 8, one past the
-    end of the root, is answered at all. -/
-theorem getByAddr_end_accepted :
-    let r : Img := .mk 8 0 1 none none [.mk 4 0 1 none none [], .mk 4 4 1 none none []]
-    (r.getByAddr 4).map (fun x => (x.1, x.2.1)) = .ok ([0], 0) ∧
-    (r.getByAddrStrict 4).map (fun x => (x.1, x.2.1)) = .ok ([1], 4) ∧
-    (r.getByAddr 8).map (fun x => (x.1, x.2.1)) = .ok ([1], 4) ∧
-    (r.getByAddrStrict 8).map (fun x => (x.1, x.2.1)) = .error .spsdk := by decide
-
-/-- hypotheses of `getByAddr_sound` / `getByAddr_contains_partial` are satisfiable (a grandchild is found) -/
-example :
-    let i : Img := .mk 0 2 1 none none [.mk 0 4 1 none none [.mk 0 1 1 (some [7, 8]) none []]]
-    (i.getByAddr 8).map (fun x => (x.1, x.2.1, x.2.2.len)) = .ok ([0, 0], 5, 2) ∧ 8 ≠ i.offset + 5 + 2 := by
-  decide
-/-- hypothesis of `getByAddr_error` is satisfiable -/
-example : ((Img.mk 4 2 1 none none []).getByAddr 7).map (fun x => x.1) = .error .spsdk ∧
-    ((Img.mk 4 2 1 none none []).getByAddr 1).map (fun x => x.1) = .error .spsdk := by decide
-
-/-! ## the current search against the strict one ("the image that contains the address") -/
-
-theorem getByAddrStrictChildren_some (l : List Img) (addr idx : Nat) (r : List Nat × Nat × Img)
-    (h : getByAddrStrictChildren l addr idx = some r) :
-    ∃ k c path off, l[k]? = some c ∧ c.getByAddrStrict addr = .ok (path, off, r.2.2) ∧
-      r.1 = (idx + k) :: path ∧ r.2.1 = c.offset + off ∧
-      ∀ j c', j < k → l[j]? = some c' → ∃ e, c'.getByAddrStrict addr = .error e := by
-  induction l generalizing idx with
-  | nil => simp [getByAddrStrictChildren] at h
-  | cons c cs ih =>
-    rw [getByAddrStrictChildren] at h
-    cases hc : c.getByAddrStrict addr with
-    | ok x =>
-      obtain ⟨path, off, d⟩ := x
-      rw [hc] at h; simp only [] at h
-      cases h
-      exact ⟨0, c, path, off, by simp, hc, by simp, rfl, by intro j c' hj; omega⟩
-    | error e =>
-      rw [hc] at h; simp only [] at h
-      obtain ⟨k, c2, path, off, h1, h2, h3, h4, h5⟩ := ih (idx + 1) h
-      refine ⟨k + 1, c2, path, off, by simpa using h1, h2, by rw [h3]; congr 1; omega, h4, ?_⟩
-      intro j c' hj hj'
-      cases j with
-      | zero =>
-        have : c = c' := by simpa using hj'
-        subst this; exact ⟨e, hc⟩
-      | succ j => exact h5 j c' (by omega) (by simpa using hj')
-
-theorem getByAddrStrictChildren_none (l : List Img) (addr idx : Nat) :
-    getByAddrStrictChildren l addr idx = none ↔ ∀ c ∈ l, ∃ e, c.getByAddrStrict addr = .error e := by
-  induction l generalizing idx with
-  | nil => simp [getByAddrStrictChildren]
-  | cons c cs ih =>
-    rw [getByAddrStrictChildren]
-    cases hc : c.getByAddrStrict addr with
-    | ok x =>
-      obtain ⟨path, off, d⟩ := x
-      simp only []
-      constructor
-      · intro h; cases h
-      · intro h
-        obtain ⟨e, he⟩ := h c (by simp)
-        rw [hc] at he; cases he
-    | error e =>
-      simp only []
-      rw [ih]
-      constructor
-      · intro h c' hc'
-        rcases List.mem_cons.1 hc' with rfl | hc'
-        · exact ⟨e, hc⟩
-        · exact h c' hc'
-      · intro h c' hc'; exact h c' (List.mem_cons_of_mem _ hc')
-
-theorem getByAddrStrictChildren_first (l : List Img) (addr idx k : Nat) (c : Img) (path : List Nat) (off : Nat)
-    (d : Img) (hk : l[k]? = some c) (hc : c.getByAddrStrict addr = .ok (path, off, d))
-    (hb : ∀ j c', j < k → l[j]? = some c' → ∃ e, c'.getByAddrStrict addr = .error e) :
-    getByAddrStrictChildren l addr idx = some ((idx + k) :: path, c.offset + off, d) := by
+theorem getByAddrChildren_first (l : List Img) (addr idx k : Nat) (c : Img) (path : List Nat) (off : Nat)
+    (d : Img) (hk : l[k]? = some c) (hc : c.getByAddr addr = .ok (path, off, d))
+    (hb : ∀ j c', j < k → l[j]? = some c' → ∃ e, c'.getByAddr addr = .error e) :
+    getByAddrChildren l addr idx = some ((idx + k) :: path, c.offset + off, d) := by
   induction l generalizing idx k with
   | nil => simp at hk
   | cons x xs ih =>
-    rw [getByAddrStrictChildren]
+    rw [getByAddrChildren]
     cases k with
     | zero =>
       have : x = c := by simpa using hk
@@ -313,24 +313,24 @@ theorem getByAddrStrictChildren_first (l : List Img) (addr idx k : Nat) (c : Img
       rw [this]
 
 /-- where the current search refuses, the strict one refuses -/
-theorem getByAddrStrict_error_of_error (i : Img) : ∀ (addr : Nat) (e : PyErr),
-    i.getByAddr addr = .error e → ∃ e', i.getByAddrStrict addr = .error e' := by
+theorem getByAddr_error_of_error (i : Img) : ∀ (addr : Nat) (e : PyErr),
+    i.getByAddrLax addr = .error e → ∃ e', i.getByAddr addr = .error e' := by
   induction i using Img.induct' with
   | h s o a b p ch ih =>
     intro addr e h
-    rw [Img.getByAddr] at h
-    rw [Img.getByAddrStrict]
+    rw [Img.getByAddrLax] at h
+    rw [Img.getByAddr]
     by_cases hlt : addr < o
     · rw [if_pos hlt]; exact ⟨_, rfl⟩
     · rw [if_neg hlt] at h ⊢
-      cases hch : getByAddrChildren ch (addr - o) 0 with
+      cases hch : getByAddrLaxChildren ch (addr - o) 0 with
       | some r => rw [hch] at h; cases h
       | none =>
         rw [hch] at h; simp only [] at h
-        have hs : getByAddrStrictChildren ch (addr - o) 0 = none := by
-          rw [getByAddrStrictChildren_none]
+        have hs : getByAddrChildren ch (addr - o) 0 = none := by
+          rw [getByAddrChildren_none]
           intro c hc
-          obtain ⟨e1, he1⟩ := (getByAddrChildren_none ch (addr - o) 0).1 hch c hc
+          obtain ⟨e1, he1⟩ := (getByAddrLaxChildren_none ch (addr - o) 0).1 hch c hc
           exact ih c hc _ _ he1
         rw [hs]; simp only []
         by_cases hgt : addr > o + (Img.mk s o a b p ch).len
@@ -338,22 +338,22 @@ theorem getByAddrStrict_error_of_error (i : Img) : ∀ (addr : Nat) (e : PyErr),
         · rw [if_neg hgt] at h; cases h
 
 /-- where the current search finds an image that really contains the address, the strict search finds the same -/
-theorem getByAddrStrict_of_lt (i : Img) : ∀ (addr : Nat) (path : List Nat) (off : Nat) (d : Img),
-    i.getByAddr addr = .ok (path, off, d) → addr < i.offset + off + d.len →
-    i.getByAddrStrict addr = .ok (path, off, d) := by
+theorem getByAddr_of_lt (i : Img) : ∀ (addr : Nat) (path : List Nat) (off : Nat) (d : Img),
+    i.getByAddrLax addr = .ok (path, off, d) → addr < i.offset + off + d.len →
+    i.getByAddr addr = .ok (path, off, d) := by
   induction i using Img.induct' with
   | h s o a b p ch ih =>
     intro addr path off d h hlt'
-    rw [Img.getByAddr] at h
-    rw [Img.getByAddrStrict]
+    rw [Img.getByAddrLax] at h
+    rw [Img.getByAddr]
     by_cases hlt : addr < o
     · rw [if_pos hlt] at h; cases h
     · rw [if_neg hlt] at h ⊢
-      cases hch : getByAddrChildren ch (addr - o) 0 with
+      cases hch : getByAddrLaxChildren ch (addr - o) 0 with
       | some r =>
         rw [hch] at h; simp only [] at h
         cases h
-        obtain ⟨k, c, path', off', h1, h2, h3, h4, h5⟩ := getByAddrChildren_some _ _ _ _ hch
+        obtain ⟨k, c, path', off', h1, h2, h3, h4, h5⟩ := getByAddrLaxChildren_some _ _ _ _ hch
         simp only [] at h2 h3 h4
         subst h3 h4
         have hmem := List.mem_of_getElem? h1
@@ -361,16 +361,16 @@ theorem getByAddrStrict_of_lt (i : Img) : ∀ (addr : Nat) (path : List Nat) (of
           have : addr < o + (c.offset + off') + d.len := hlt'
           omega
         have hs := ih c hmem _ _ _ _ h2 hlt2
-        rw [getByAddrStrictChildren_first ch (addr - o) 0 k c path' off' d h1 hs (fun j c' hj hj' => by
+        rw [getByAddrChildren_first ch (addr - o) 0 k c path' off' d h1 hs (fun j c' hj hj' => by
           obtain ⟨e, he⟩ := h5 j c' hj hj'
-          exact getByAddrStrict_error_of_error c' _ _ he)]
+          exact getByAddr_error_of_error c' _ _ he)]
       | none =>
         rw [hch] at h; simp only [] at h
-        have hs : getByAddrStrictChildren ch (addr - o) 0 = none := by
-          rw [getByAddrStrictChildren_none]
+        have hs : getByAddrChildren ch (addr - o) 0 = none := by
+          rw [getByAddrChildren_none]
           intro c hc
-          obtain ⟨e1, he1⟩ := (getByAddrChildren_none ch (addr - o) 0).1 hch c hc
-          exact getByAddrStrict_error_of_error c _ _ he1
+          obtain ⟨e1, he1⟩ := (getByAddrLaxChildren_none ch (addr - o) 0).1 hch c hc
+          exact getByAddr_error_of_error c _ _ he1
         rw [hs]; simp only []
         by_cases hgt : addr > o + (Img.mk s o a b p ch).len
         · rw [if_pos hgt] at h; cases h
@@ -380,20 +380,20 @@ theorem getByAddrStrict_of_lt (i : Img) : ∀ (addr : Nat) (path : List Nat) (of
           rw [if_neg (by omega)]
 
 /-- the strict search only returns images that contain the address -/
-theorem getByAddrStrict_bounds (i : Img) : ∀ (addr : Nat) (path : List Nat) (off : Nat) (d : Img),
-    i.getByAddrStrict addr = .ok (path, off, d) → i.offset + off ≤ addr ∧ addr < i.offset + off + d.len := by
+theorem getByAddr_bounds (i : Img) : ∀ (addr : Nat) (path : List Nat) (off : Nat) (d : Img),
+    i.getByAddr addr = .ok (path, off, d) → i.offset + off ≤ addr ∧ addr < i.offset + off + d.len := by
   induction i using Img.induct' with
   | h s o a b p ch ih =>
     intro addr path off d h
-    rw [Img.getByAddrStrict] at h
+    rw [Img.getByAddr] at h
     by_cases hlt : addr < o
     · rw [if_pos hlt] at h; cases h
     · rw [if_neg hlt] at h
-      cases hch : getByAddrStrictChildren ch (addr - o) 0 with
+      cases hch : getByAddrChildren ch (addr - o) 0 with
       | some r =>
         rw [hch] at h; simp only [] at h
         cases h
-        obtain ⟨k, c, path', off', h1, h2, h3, h4, _⟩ := getByAddrStrictChildren_some _ _ _ _ hch
+        obtain ⟨k, c, path', off', h1, h2, h3, h4, _⟩ := getByAddrChildren_some _ _ _ _ hch
         simp only [] at h2 h3 h4
         subst h3 h4
         obtain ⟨g4, g5⟩ := ih c (List.mem_of_getElem? h1) _ _ _ _ h2
@@ -412,25 +412,25 @@ theorem getByAddrStrict_bounds (i : Img) : ∀ (addr : Nat) (path : List Nat) (o
 
 /-- the current result deviates from the strict one exactly when the address is the END address (one past the last
     byte) of the image the current code returns -/
-theorem getByAddr_strict_iff (i : Img) (addr : Nat) (path : List Nat) (off : Nat) (d : Img)
-    (h : i.getByAddr addr = .ok (path, off, d)) :
-    i.getByAddrStrict addr = .ok (path, off, d) ↔ addr ≠ i.offset + off + d.len := by
+theorem getByAddrLax_strict_iff (i : Img) (addr : Nat) (path : List Nat) (off : Nat) (d : Img)
+    (h : i.getByAddrLax addr = .ok (path, off, d)) :
+    i.getByAddr addr = .ok (path, off, d) ↔ addr ≠ i.offset + off + d.len := by
   constructor
   · intro hs
-    have := (getByAddrStrict_bounds i addr path off d hs).2
+    have := (getByAddr_bounds i addr path off d hs).2
     omega
   · intro hne
-    obtain ⟨_, _, _, _, h2⟩ := getByAddr_sound i addr path off d h
-    exact getByAddrStrict_of_lt i addr path off d h (by omega)
+    obtain ⟨_, _, _, _, h2⟩ := getByAddrLax_sound i addr path off d h
+    exact getByAddr_of_lt i addr path off d h (by omega)
 
 /-- hypotheses satisfiable: same answer for 5, different answers for the boundary address 4 -/
 example :
     let r : Img := .mk 8 0 1 none none [.mk 4 0 1 none none [], .mk 4 4 1 none none []]
+    (r.getByAddrLax 5).map (fun x => (x.1, x.2.1)) = .ok ([1], 4) ∧
     (r.getByAddr 5).map (fun x => (x.1, x.2.1)) = .ok ([1], 4) ∧
-    (r.getByAddrStrict 5).map (fun x => (x.1, x.2.1)) = .ok ([1], 4) ∧
-    (r.getByAddr 4).map (fun x => (x.1, x.2.1, x.2.2.len)) = .ok ([0], 0, 4) ∧ 4 = r.offset + 0 + 4 := by decide
-example : ((Img.mk 4 2 1 none none []).getByAddr 7).map (fun x => x.1) = .error .spsdk ∧
-    ((Img.mk 4 2 1 none none []).getByAddrStrict 7).map (fun x => x.1) = .error .spsdk := by decide
+    (r.getByAddrLax 4).map (fun x => (x.1, x.2.1, x.2.2.len)) = .ok ([0], 0, 4) ∧ 4 = r.offset + 0 + 4 := by decide
+example : ((Img.mk 4 2 1 none none []).getByAddrLax 7).map (fun x => x.1) = .error .spsdk ∧
+    ((Img.mk 4 2 1 none none []).getByAddr 7).map (fun x => x.1) = .error .spsdk := by decide
 
 /-! ## `find_sub_image` -/
 
